@@ -8,6 +8,7 @@ From Common Require Import Bytes Outcome.
 From Scale Require Import Compact Types Spec Codec Total Cost WellTyped.
 From Scale Require Import CostExcess CostDeclared.
 From C33 Require Import Model Proofs ProofsExcess ProofsDeclared.
+From C33 Require Import ProofsBresp.
 Local Open Scope N_scope.
 
 Theorem C33_schemas_wf : forallb wf_ty schemas = true.
@@ -115,6 +116,62 @@ Example C33_cost_declared_nonvacuous :
   (In s_header schemas /\ decode_res current s_header w_header = Err 1%nat /\
    declared_total s_header w_header = 16383 /\ 16383 <= decode_cost current s_header w_header).
 Proof. exact cost_declared_witness. Qed.
+
+(* closer: the declared-length bound lifted to the block response layer.  bresp_cost blocks =
+   snd (bresp_decode current blocks) is the meter Model.bresp_decode threads: the sum of the
+   header / body decode costs in the order the model (and BlockResponseMessage.Decode) runs them,
+   stopping at the first failing decode.  For EVERY response - any number of blocks, any field
+   bytes, failing decodes included - it is at most a_bresp * (1 + decoder input bytes + number of
+   blocks) + the declared totals of the fields, a_bresp = (ca + cb) s_header + (ca + cb) s_body
+   = 17 102.  block_bytes = header bytes + (when there is a body entry) compact(#entries) ++
+   entries; block_declared = declared_total s_header (header bytes, when present) +
+   declared_total s_body (body bytes, when there is an entry). *)
+Theorem C33_bresp_cost_declared : forall blocks,
+  bresp_cost blocks <=
+    a_bresp * (1 + sumN block_bytes blocks + N.of_nat (length blocks)) +
+    sumN block_declared blocks.
+Proof. exact bresp_cost_declared. Qed.
+Print Assumptions C33_bresp_cost_declared.
+
+(* ... exact to the fields the decoder runs: only the visited blocks (up to and including the first
+   failing one) count, and in a block whose header fails the body does not *)
+Theorem C33_bresp_cost_declared_run : forall blocks,
+  bresp_cost blocks <=
+    a_bresp * (sumN block_bytes_run (visited blocks) + N.of_nat (length (visited blocks))) +
+    sumN block_declared_run (visited blocks).
+Proof. exact bresp_cost_run. Qed.
+Print Assumptions C33_bresp_cost_declared_run.
+
+(* ... and in the protobuf fields themselves (header bytes, body entry bytes, number of entries):
+   the compact count in front of the body entries is at most 4 + #entries bytes *)
+Theorem C33_bresp_cost_declared_pb : forall blocks,
+  bresp_cost blocks <=
+    a_bresp * (1 + sumN pb_bytes blocks + sumN pb_entries blocks + 5 * N.of_nat (length blocks)) +
+    sumN block_declared blocks.
+Proof. exact bresp_cost_declared_pb. Qed.
+Print Assumptions C33_bresp_cost_declared_pb.
+
+Theorem C33_bresp_constant :
+  a_bresp = ca s_header + cb s_header + (ca s_body + cb s_body) /\ a_bresp <= 109000.
+Proof. exact a_bresp_value. Qed.
+Print Assumptions C33_bresp_constant.
+
+(* non-vacuity: two blocks; the first decodes (header with an empty digest, one body entry), the
+   header of the second declares a byte vector of 4 194 303 bytes, supplies one and then lacks its
+   second digest item: Err, the body of block 2 is never decoded, the meter (4 194 728) is above
+   the linear term alone and within the bound with the declared term *)
+Example C33_bresp_cost_declared_nonvacuous :
+  bresp_decode current w_bresp = (Err 1%nat, 4194728) /\
+  fst (block_ok current w_hdr_ok [w_entry]) = Ok tt /\
+  decode_res current s_header w_hdr_big = Err 1%nat /\
+  hdr_declared w_hdr_big = 4194303 /\
+  length (visited w_bresp) = 2%nat /\
+  sumN block_bytes w_bresp = 214 /\ sumN block_declared w_bresp = 4194307 /\
+  sumN block_bytes_run (visited w_bresp) = 210 /\
+  sumN block_declared_run (visited w_bresp) = 4194305 /\
+  a_bresp * (1 + sumN block_bytes w_bresp + 2) < bresp_cost w_bresp /\
+  bresp_cost w_bresp <= a_bresp * (1 + sumN block_bytes w_bresp + 2) + sumN block_declared w_bresp.
+Proof. exact bresp_declared_witness. Qed.
 
 Theorem C33_cost_constants : forallb (fun t => ca t + cb t <=? 54500) schemas = true.
 Proof. exact cost_constants. Qed.
